@@ -249,6 +249,24 @@ def hold_hung_sequences(rng, o, modes=("call", "execute")):
     return out
 
 
+def long_run_sequences(rng, o, n=2):
+    """a long run: 14 attempts, every one failing with a retryable class, with hooks that fail at every invocation and (in
+    execute) a captured timeline — whatever the library counts per run (failures of a hook, events) gets beyond ten"""
+    out = []
+    for i in range(n):
+        p = gen_policy(rng, dict(o, p_att_timeout=0.0, p_tight_deadline=0.0, p_handler=0.0, p_rc=0.0))
+        p.update(max_attempts=14, deadline=2**33, max_unknown=None, per_class={}, strat_default=False, strat_tab={}, handler_p=False, has_rc=False)
+        call = gen_call(rng, 0, p, dict(o, p_abort=0.0, p_handler=0.0, p_metric=1.0, p_log=0.8, p_timeline=1.0, mode=["execute", "call"][i % 2]),
+                        entries=["retry"])
+        call["env"].update(ops=[["R", rng.choice([0, 1]), rng.choice(["TRANSIENT", "SERVER_ERROR", "RATE_LIMIT"]), None] for _ in range(14)],
+                           strat=[rng.choice([0, 1, 2]) for _ in range(14)], over=[0] * 14, handler=[], sleep_cancel=[], bs_cancel=[], abort=[],
+                           metric_raises=[True] * 80, log_raises=[rng.random() < 0.5 for _ in range(80)], bs_raises=[True] * 20)
+        call["cfg"].update(handler_c=False, has_abort=False)
+        call["variant"]["same_exc"] = call["variant"]["exc_group"] = False
+        out.append({"t0": 0, "budget": None, "breaker": None, "policies": [p], "calls": [call]})
+    return out
+
+
 def gen_sequence(rng, o):
     if rng.random() < o.get("p_cap_mix", 0.0):
         return cap_mix_sequence(rng, o)
@@ -712,6 +730,43 @@ def slow_hooks_part(chk, pid, opts, n_quick=150, n_thorough=1500):
     if bad and not chk.violations:
         i, m = bad[0]
         chk.violation({"kind": "oracle", "oracle": "DELAYFLOW", "part": "slow-hooks", "what": m, "script": seqs[i], "observed": obs[i],
+                       "driver": "runner_driver", "also_failing": len(bad)})
+
+
+def slow_record_part(chk, pids, opts, n_quick=150, n_thorough=1500):
+    """scripts whose strategies are stateful objects with a record_failure() that takes time: the clock moves between the
+    deadline test of a failure and the computation of the time remaining for its backoff.  No model of such a world; the
+    property oracles named in [pids] (clauses about the clock readings at sleeper calls and invocations) are evaluated on the
+    implementation alone."""
+    import oracles
+    o = dict(opts, p_tight_deadline=0.85, p_special=0.0, p_att_timeout=0.0, p_abort=0.0, p_handler=0.0)
+    seqs = []
+    for _ in range(n_quick if chk.tier == "quick" else n_thorough):
+        s = gen_sequence(chk.rng, o)
+        s["spy_strategy"] = True
+        s["rf_cost"] = chk.rng.choice([1, 2, 3, 5, 8])
+        for p in s["policies"]:
+            # context-style strategies (a legacy function cannot carry record_failure), present for every class
+            p["strat_default"] = False
+            p["strat_tab"] = {k: False for k in p["strat_tab"]}
+            p["handler_p"] = False
+        for c in s["calls"]:
+            for f in POLICY_FIELDS:
+                c["cfg"][f] = s["policies"][c["policy"]][f]
+            c["cfg"]["handler_c"] = False
+            c["env"]["handler"] = []
+            c["env"]["strat"] = [chk.rng.choice([1, 3, 5, 8, 13, 20, 2**20]) for _ in c["env"]["strat"]]
+        seqs.append(s)
+    obs = run_impl(seqs, jobs=min(16, common.NPROC))
+    drv = [o2["delivery"] for ob in obs for o2 in ob if o2["delivery"][0] == "driver_error"]
+    if drv:
+        raise common.DriverError("runner_driver failed on a slow-record script: " + str(drv[0][1])[-1500:])
+    bad = [(i, pid, m) for i, (s, ob) in enumerate(zip(seqs, obs)) for pid in pids for m in [oracles.check_seq(pid, s, ob)] if m]
+    chk.coverage["slow_record_scripts"] = {"scripts": len(seqs), "record_failure_calls": sum(1 for ob in obs for c in ob for e in c["trace"] if e[0] == "SF"),
+                                           "oracles": list(pids)}
+    if bad and not chk.violations:
+        i, pid, m = bad[0]
+        chk.violation({"kind": "oracle", "oracle": pid, "part": "slow-record", "what": m, "script": seqs[i], "observed": obs[i],
                        "driver": "runner_driver", "also_failing": len(bad)})
 
 
